@@ -9,7 +9,10 @@
 (* accepted grammars, the tables.                                           *)
 (***************************************************************************)
 EXTENDS Ebnf, TLC
-CONSTANTS NRules, Depth, DeepRules   \* rules 1..DeepRules use depth Depth, the others depth 1 (or 0 if Depth = 0)
+CONSTANTS NRules, Depth, DeepRules,  \* rules 1..DeepRules use depth Depth, the others depth 1 (or 0 if Depth = 0)
+          Family                       \* "all" | "loops": every rule is  ['c'] (B)* 'c'  or  ['c'] (B)+ 'c'  with B any
+                                       \* NULLABLE expression of depth <= 2 over 'a', 'b' - loops around bodies that can
+                                       \* be empty, where the epsilon closure of the NFA has cycles
 
 RuleNames == <<"r1", "r2", "r3", "r4">>
 Symbols == {<<"S", "a">>, <<"S", "b">>} \cup {<<"N", RuleNames[i]>> : i \in 1..NRules}
@@ -21,6 +24,19 @@ Ex(k) == IF k = 0 THEN E0
               P \cup {[op |-> "alt", l |-> a, r |-> b] : a \in P, b \in P}
                 \cup {[op |-> "seq", l |-> a, r |-> b] : a \in P, b \in P}
                 \cup {[op |-> o, l |-> a] : o \in {"opt", "star", "plus"}, a \in P}
+
+E0T == {[op |-> "sym", id |-> 0, s |-> x] : x \in {<<"S", "a">>, <<"S", "b">>}}
+RECURSIVE ExT(_)
+ExT(k) == IF k = 0 THEN E0T
+          ELSE LET P == ExT(k - 1) IN
+               P \cup {[op |-> "alt", l |-> a, r |-> b] : a \in P, b \in P}
+                 \cup {[op |-> "seq", l |-> a, r |-> b] : a \in P, b \in P}
+                 \cup {[op |-> o, l |-> a] : o \in {"opt", "star", "plus"}, a \in P}
+CSym == [op |-> "sym", id |-> 0, s |-> <<"S", "c">>]
+Loops == LET B == {e \in ExT(2) : Nullable(e)}
+             L == {[op |-> o, l |-> b] : o \in {"star", "plus"}, b \in B}
+         IN {[op |-> "seq", l |-> x, r |-> CSym] : x \in L}
+            \cup {[op |-> "seq", l |-> CSym, r |-> [op |-> "seq", l |-> x, r |-> CSym]] : x \in L}
 
 NonNullable(S) == {e \in S : ~Nullable(e)}
 Shallow == NonNullable(Ex(IF Depth = 0 THEN 0 ELSE 1))
@@ -39,8 +55,9 @@ R(e, ctx) ==
     [] e.op = "plus" -> IF ctx = "rep" THEN "(" \o R(e.l, "rep") \o "+)" ELSE R(e.l, "rep") \o "+"
 
 VARIABLES gr, done
-Init == /\ gr \in [1..NRules -> Deep \cup Shallow]
-        /\ \A i \in 1..NRules : IF i <= DeepRules THEN gr[i] \in Deep ELSE gr[i] \in Shallow
+Init == /\ IF Family = "loops" THEN gr \in [1..NRules -> Loops]
+           ELSE /\ gr \in [1..NRules -> Deep \cup Shallow]
+                /\ \A i \in 1..NRules : IF i <= DeepRules THEN gr[i] \in Deep ELSE gr[i] \in Shallow
         /\ done = FALSE
 Emit == /\ ~done /\ done' = TRUE /\ gr' = gr
         /\ PrintT(<<"G", [i \in 1..NRules |-> R(gr[i], "top")]>>)
